@@ -141,6 +141,48 @@ func runLC(c *Ctx, s *Sink) {
 	} else {
 		s.Fail(nil, key, fd.Pos(), fmt.Sprintf("nothing bounds the lengths of the sequences against the %d-bit fields and the sentinel path length %d: beyond them a real path ranks after the 'not available' cell (a^40000 c^10 against c^10 returns an alignment of 30010 columns) and the fields wrap (a sequence of 70000 bases compared with itself: not found)", wsize, sentinel))
 	}
+	// (2b) the default bound (no bound requested) is derived from the longest sequence: it is computed after the exchange
+	// that makes the first operand the longest
+	key = "pkg/obialign.FastLCSEGFScoreByte:default-bound-after-swap"
+	var swapPos, defPos token.Pos
+	var boundParam types.Object
+	for _, id := range flattenParams(fd.Type.Params) {
+		if id != nil {
+			if bt, ok := info.ObjectOf(id).Type().Underlying().(*types.Basic); ok && bt.Kind() == types.Int && boundParam == nil {
+				boundParam = info.ObjectOf(id)
+			}
+		}
+	}
+	for _, st := range fd.Body.List {
+		ifs, ok := st.(*ast.IfStmt)
+		if !ok {
+			continue
+		}
+		for _, bs := range ifs.Body.List {
+			as, ok := bs.(*ast.AssignStmt)
+			if !ok {
+				continue
+			}
+			if len(as.Lhs) == 2 && len(as.Rhs) == 2 && types.ExprString(as.Lhs[0]) == types.ExprString(as.Rhs[1]) && types.ExprString(as.Lhs[1]) == types.ExprString(as.Rhs[0]) && swapPos == token.NoPos {
+				swapPos = ifs.Pos()
+			}
+			if len(as.Lhs) == 1 && boundParam != nil && rootObj(info, as.Lhs[0]) == boundParam {
+				if b, ok := ast.Unparen(ifs.Cond).(*ast.BinaryExpr); ok && b.Op == token.EQL && rootObj(info, b.X) == boundParam {
+					if v, isC := constInt(info, b.Y); isC && v == -1 {
+						defPos = ifs.Pos()
+					}
+				}
+			}
+		}
+	}
+	switch {
+	case swapPos == token.NoPos || defPos == token.NoPos:
+		s.Undecided(nil, key, fd.Pos(), "the exchange of the operands or the default of the bound was not found among the top-level statements of the kernel")
+	case defPos < swapPos:
+		s.Fail(nil, key, defPos, "the bound used when none is requested is computed from the length of the first operand before the operands are exchanged: when the first argument is the shortest the 'no limit' bound is twice the shortest length, and a pair differing by more than that is answered 'not found' although no bound was given")
+	default:
+		s.Pass(nil, key, defPos, "the default bound is derived from the longest sequence (computed after the exchange)")
+	}
 	// (3) roles
 	key = "pkg/obialign.FastLCSEGFScoreByte:roles-symmetric"
 	if entry == nil {
